@@ -184,7 +184,7 @@ with dec_list (fuel : nat) (n : N) (bs : bytes) {struct fuel} : dres (list mv) :
 (* whole-buffer decode as unpackb does it: exactly one value, nothing after it *)
 Inductive ures := UOk (v : mv) | UExtra | UIncomplete | UBad | UFuel.
 Definition unpackb (bs : bytes) : ures :=
-  match dec (2 * List.length bs + 4) bs with
+  match dec (3 * List.length bs) bs with
   | DOk v [] => UOk v
   | DOk _ _ => UExtra
   | DIncomplete => UIncomplete
